@@ -224,6 +224,17 @@ def run(ctx: Ctx) -> int:
     ser = ctx.func("_typehints:ActionTypeHint.serialize")
     ok = any(isinstance(it.context_expr, ast.Call) and call_leaf(it.context_expr) == "dump_kwargs_context" and it.context_expr.args and root_name(it.context_expr.args[0]) == "dump_kwargs" for w in walk_local(ser) if isinstance(w, ast.With) for it in w.items)
     ctx.oblige("C01.f", ok, ser, "ActionTypeHint.serialize publishes the dump options for nested parsers (dump_kwargs_context(dump_kwargs))" if ok else "ActionTypeHint.serialize no longer publishes the dump options it was given", fn=ser)
+    from .util import enclosing_withs
+
+    for c in [c for c in calls_in(ser) if call_leaf(c) == "adapt_typehints"]:
+        inside = any(isinstance(it.context_expr, ast.Call) and call_leaf(it.context_expr) == "dump_kwargs_context" for _, it in enclosing_withs(c, stop=ser))
+        ctx.oblige(
+            "C01.f",
+            inside,
+            c,
+            "this serialising adaptation runs while the caller's dump options are published" if inside else "this serialising adaptation runs OUTSIDE dump_kwargs_context: nested parsers dump with whatever options an earlier dump left behind (nulls inside list-valued class arguments are dropped although nulls are kept)",
+            fn=ser,
+        )
     n_nd = 0
     for ref in ("_typehints:adapt_typehints", "_typehints:adapt_class_type"):
         fn = ctx.func(ref)
